@@ -129,8 +129,17 @@ def _dur_witness(us):
     return cls().parse(bytes(m)).d != timedelta(microseconds=us)
 
 
+def _nan_list():
+    schema = [bpgen.M("M0", [bpgen.F("r", 1, "double", repeated=True)])]
+    cls = bpgen.build_bp(schema)[0]
+    m = cls(r=[float("nan"), 1.0])
+    return not (cls().parse(bytes(m)) == m)
+
+
 def replay_known(chk, entry):
     w = entry["witness"]
+    if w.get("kind") == "nan-list":
+        return _nan_list()
     if w.get("kind") == "negative-enum":
         return _enum_witness()
     if w.get("kind") == "duration-us":
